@@ -266,6 +266,10 @@ package parser
 
 //@ func (p *parser) parseForExpression
 //@ requires pinv(p)
+// C08: everything that can contain the loop's body - the iterable (a call expression takes the { } block
+// that follows it as its own block) and the block itself - is parsed with the in-loop flag set
+//@ assert iterflag: p.inForBlock && callarg1 == LOWEST before parseExpression#1
+//@ assert bodyflag: p.inForBlock before parseBlockStatement#1
 // C18 cursor convention: a block construct ends on its closing brace (or at EOF); (when the iterable is a
 // call expression the loop may have taken over that call's block - not covered by this clause)
 //@ ensures lasttok: result != nil && !is(unbox(result, "*ast.ForExpression").Iterable, "*ast.CallExpression") ==> p.curToken.Type == token.RBRACE || p.curToken.Type == token.EOF
